@@ -1311,6 +1311,8 @@ func (d *DynamicDirectory) AddChild(ctx context.Context, name string, nd ipld.No
 			if err != nil {
 				return err
 			}
+			// Propagate per-directory HAMT sharding size (not a DirectoryOption)
+			basicDir.SetHAMTShardingSize(hamtDir.GetHAMTShardingSize())
 			err = basicDir.AddChild(ctx, name, nd)
 			if err != nil {
 				return err
